@@ -568,7 +568,18 @@ func (fr *FuncRun) val(f *Frame, st *State, v ssa.Value) Val {
 		fr.w.declFun(name, fmt.Sprintf("(declare-fun %s () Int)", name))
 		key := "glob:" + name
 		if fr.once(key) {
-			fr.emit(fmt.Sprintf("(assert (> %s 0))", name))
+			fr.emit(fmt.Sprintf("(assert (and (> %s 0) (<= %s AllocBase)))", name, name))
+			// a package-level variable that is never written keeps its zero value
+			elem := x.Type().(*types.Pointer).Elem()
+			if fr.eng.neverWritten(x) {
+				if isStruct(elem) {
+					fr.assumed["package variable "+x.Name()+" is never written: not exploited for struct-typed variables"] = true
+				} else {
+					h := fr.w.CellHeap(elem)
+					fr.emit(fmt.Sprintf("(assert (= (select %s_0 %s) %s))", h, name, fr.w.Zero(elem)))
+					fr.constGlobals[name] = h
+				}
+			}
 		}
 		return Val{T: name, S: sInt, Addr: ObjAddr{Ref: name, Elem: x.Type().(*types.Pointer).Elem(), NonNil: true}}
 	case *ssa.Builtin:
